@@ -52,9 +52,11 @@ def check(w):
         raise Broken("scenario generation: %d lines" % len(scen))
     # history: "after the same daemon served the sibling module" matters only where file contents are read (-c) and a listing results
     scen = [s for s in scen if not s["prime"] or ("c" in s["opts"] and s["inside"])]
+    # ... "the module directory was replaced after an earlier request" matters where a listing results
+    scen = [s for s in scen if not s.get("swap") or (s["inside"] and s["path"] in ("", "a") and s["prefix"] in ("m", "m/"))]
     rnd = random.Random(w.seed)
     # the same request grammar against an fs.FS-backed module (a sample)
-    fsm = [dict(s, fsmod=True, prime=False) for s in rnd.sample(scen, min(400, len(scen)))]
+    fsm = [dict(s, fsmod=True, prime=False, swap=False) for s in rnd.sample(scen, min(400, len(scen)))]
     scen = scen + fsm
     for i, s in enumerate(scen):
         s["id"] = i + 1
@@ -68,7 +70,7 @@ def check(w):
         for o in obs2:
             if o["id"] in rej2:
                 what = "leak" if o["leaks"] else "accessed" if o["events"] else o["result"]
-                v.violation({"what": what, "opts": sorted(o["opts"]), "fsmod": o["fsmod"], "trailing_slash": o["arg"].endswith("/"), "after_other_module": bool((o.get("scn") or {}).get("prime"))},
+                v.violation({"what": what, "opts": sorted(o["opts"]), "fsmod": o["fsmod"], "trailing_slash": o["arg"].endswith("/"), "after_other_module": bool((o.get("scn") or {}).get("prime")), "after_directory_replaced": bool((o.get("scn") or {}).get("swap"))},
                             {"request": o["arg"], "opts": o["opts"], "leaks": o["leaks"], "events": o["events"], "listed": o["listed"][:10], "result": o["result"], "err": o["err"][:300]})
     good = [o for o in obs if o["id"] not in rej]
     bad = []
@@ -90,7 +92,7 @@ def check(w):
         "evaluations": len(obs), "distinct_nontrivial": sum(1 for o in obs if o["effective"]),
         "requests_with_a_listing": len(listing), "files_fetched": sum(o["fetched"] for o in obs),
         "rule": "request paths of 0..%d components over {plain dir, link out (relative / absolute / absolute starting with the module path / sibling sharing the module's path prefix), link to an outside file, inside link, '..', '.'} "
-                "x module-name spellings {m, m/, m//, mm, absolute, empty} x trailing slash x options {-c, -l} x history {fresh daemon, the same daemon just served a sibling module with the same file names, sizes and mtimes}, against a directory-backed module and an fs.FS-backed one, with other modules configured; "
+                "x module-name spellings {m, m/, m//, mm, absolute, empty} x trailing slash x options {-c, -l} x history {fresh daemon, the same daemon just served a sibling module with the same file names, sizes and mtimes, the same daemon served this module before its directory was replaced}, against a directory-backed module and an fs.FS-backed one, with other modules configured; "
                 "non-trivial = a path-joining sender would start its walk outside the module (Disclose!Effective)" % depth,
         "action_coverage": cov, "negative_controls": len(bad), "worker_crashes": summ["crashed"],
     }
